@@ -275,6 +275,10 @@ type expTarget struct {
 	kind     string
 	// wantType: the declared type (block addressable "as type of" an attribute holding a type declaration)
 	wantType *cty.Type
+	// onlyAllow: not required to exist (e.g. schema-supplied targetables of the block's body); only licenses the address
+	onlyAllow bool
+	// wantTyped: one of the targets must carry a type (attribute addressable by the type of its value)
+	wantTyped bool
 	// wantNested: addresses of the written attributes an inferred body-as-data target must hold as nested targets
 	wantNested []string
 }
@@ -363,6 +367,18 @@ func c09Expected(e *model.Eff, body *hclsyntax.Body, unknownOK bool, out *[]expT
 		if as.Address.AsReference {
 			*out = append(*out, expTarget{addr: sb.String(), rng: a.SrcRange, def: a.NameRange.Ptr(), typeless: true, kind: "attr-as-reference"})
 		}
+		// addressable by the type of its value: a typed target, whatever expression the value is written as
+		// (only for type-aware constraints whose type is known without looking at the value)
+		if as.Address.AsExprType {
+			if ae, ok := as.Constraint.(schema.AnyExpression); ok && ae.OfType != cty.DynamicPseudoType && ae.OfType != cty.NilType {
+				switch a.Expr.(type) {
+				case *hclsyntax.ScopeTraversalExpr, *hclsyntax.RelativeTraversalExpr, *hclsyntax.FunctionCallExpr, *hclsyntax.ConditionalExpr, *hclsyntax.ForExpr,
+					*hclsyntax.IndexExpr, *hclsyntax.SplatExpr, *hclsyntax.BinaryOpExpr, *hclsyntax.UnaryOpExpr, *hclsyntax.ParenthesesExpr:
+					// an expression evaluated to a value of the declared type (a literal of another kind is a mismatch: no claim)
+					*out = append(*out, expTarget{addr: sb.String(), rng: a.SrcRange, def: a.NameRange.Ptr(), kind: "attr-as-expr-type", wantTyped: true})
+				}
+			}
+		}
 	}
 	for _, b := range body.Blocks {
 		bs, ok := e.BlockSchemaFor(b.Type)
@@ -428,6 +444,17 @@ func c09Expected(e *model.Eff, body *hclsyntax.Body, unknownOK bool, out *[]expT
 			continue
 		}
 		ce := model.EffectiveIn(e, bs, b)
+		// targetables the schema attaches to the (static or selected dependent) body sit on the block's extent
+		for _, src := range []*schema.BodySchema{ce.Static, ce.Dep} {
+			if src == nil {
+				continue
+			}
+			for _, tb := range src.TargetableAs {
+				if tb != nil {
+					*out = append(*out, expTarget{addr: tb.Address.String(), rng: b.Range(), kind: "block-targetable-as", onlyAllow: true})
+				}
+			}
+		}
 		c09Expected(ce, b.Body, unknownOK, out)
 	}
 }
@@ -457,7 +484,40 @@ func c09TopLevel(cx *explore.Ctx, q run.Query, got reference.Targets, body *hcls
 		v.Detail = detail + "\nfile:\n" + cx.Case.Text
 		cx.C.Add(v)
 	}
+	// nothing else is declared by a block: a target whose extent is a written block carries one of the addresses
+	// the schema gives that block (an address step that cannot be resolved means: no declaration)
+	blockAddrs := map[string]map[string]bool{}
+	_ = hclsyntax.VisitAll(body, func(n hclsyntax.Node) hcl.Diagnostics {
+		if b, ok := n.(*hclsyntax.Block); ok {
+			r := b.Range()
+			blockAddrs[fmt.Sprintf("%d-%d", r.Start.Byte, r.End.Byte)] = map[string]bool{}
+		}
+		return nil
+	})
 	for _, e := range exp {
+		if strings.HasPrefix(e.kind, "block") {
+			if m := blockAddrs[fmt.Sprintf("%d-%d", e.rng.Start.Byte, e.rng.End.Byte)]; m != nil {
+				m[e.addr] = true
+			}
+		}
+	}
+	for _, t := range got {
+		if t.RangePtr == nil || t.RangePtr.Filename != cx.Case.File || len(t.Addr) == 0 {
+			continue
+		}
+		m, isBlock := blockAddrs[fmt.Sprintf("%d-%d", t.RangePtr.Start.Byte, t.RangePtr.End.Byte)]
+		if !isBlock {
+			continue
+		}
+		cx.L.Count("block_address_checks", 1)
+		if !m[t.Addr.String()] {
+			add("targets:unexpected-address-for-block", "block", fmt.Sprintf("the block at %s is collected as %s, the schema gives it %v", fmtRange(*t.RangePtr), t.Addr.String(), boolKeys(m)))
+		}
+	}
+	for _, e := range exp {
+		if e.onlyAllow {
+			continue
+		}
 		cx.L.Count("expected_top_level", 1)
 		ts := gotSet[key(e.addr, e.local, e.rng)]
 		if len(ts) == 0 {
@@ -478,6 +538,18 @@ func c09TopLevel(cx *explore.Ctx, q run.Query, got reference.Targets, body *hcls
 					add("targets:inferred-element-missing", e.kind, fmt.Sprintf("%s is addressable as data with an inferred body, but its written attribute %s is no nested target (nested: %v)", e.addr, n, boolKeys(have)))
 					break
 				}
+			}
+		}
+		if e.wantTyped {
+			cx.L.Count("typed_target_checks", 1)
+			typed := false
+			for _, t := range ts {
+				if t.Type != cty.NilType {
+					typed = true
+				}
+			}
+			if !typed {
+				add("targets:typed-target-missing", e.kind, fmt.Sprintf("%s is addressable by the type of its value (%s) but has no typed target", e.addr, strings.TrimPrefix(exprKind(cx, e.rng), ":")))
 			}
 		}
 		if e.wantType != nil {
@@ -603,4 +675,22 @@ func plainLiteralOf(cons schema.Constraint, expr hclsyntax.Expression) bool {
 		return x.IsStringLiteral() && want == cty.String
 	}
 	return false
+}
+
+
+// exprKind names the kind of the value expression of the attribute whose extent is r (a site class).
+func exprKind(cx *explore.Ctx, r hcl.Range) string {
+	f := cx.W.Ctx(0).Files[cx.Case.File]
+	body, ok := f.Body.(*hclsyntax.Body)
+	if !ok {
+		return ""
+	}
+	out := ""
+	_ = hclsyntax.VisitAll(body, func(n hclsyntax.Node) hcl.Diagnostics {
+		if a, ok := n.(*hclsyntax.Attribute); ok && a.SrcRange == r {
+			out = ":" + strings.TrimPrefix(fmt.Sprintf("%T", a.Expr), "*hclsyntax.")
+		}
+		return nil
+	})
+	return out
 }
